@@ -42,10 +42,10 @@ def model_check(work, consts, tag):
 QUICK = dict(Classes="ClassesCore", RowCounts="RowsQuick", NullPats="PatsQuick", ValPats="ValsQuick", Modes="ModesAll",
              RppWants="RppQuick", Versions="V12", RgOffsets="RgoQuick", StatsModes="StatsQuick", Codecs="CodecNone", WriteOpts="OptDefault")
 BIG = dict(Classes="ClassesBig", RowCounts="RowsBig", NullPats="PatsBig", ValPats="ValsBig", Modes="ModesBig",
-           RppWants="RppBig", Versions="V12", RgOffsets="Rgo0", StatsModes="StatsTrue", Codecs="CodecNone", WriteOpts="OptDefault")
+           RppWants="RppBig", Versions="V12", RgOffsets="Rgo0", StatsModes="StatsLists", Codecs="CodecNone", WriteOpts="OptDefault")
 TYPES = dict(Classes="ClassesAll", RowCounts="RowsTypes", NullPats="PatsTypes", ValPats="ValsBig", Modes="ModesBig",
              RppWants="RppTypes", Versions="V12", RgOffsets="Rgo0", StatsModes="StatsTrue", Codecs="CodecsAll", WriteOpts="OptsAll")
-HUGE = dict(BIG, RowCounts="RowsHuge", RppWants="RppHuge")
+HUGE = dict(BIG, RowCounts="RowsHuge", RppWants="RppHuge", StatsModes="StatsTrue")
 THOROUGH = dict(Classes="ClassesAll", RowCounts="RowsThorough", NullPats="PatsAll", ValPats="ValsQuick", Modes="ModesAll",
                 RppWants="RppQuick", Versions="V12", RgOffsets="RgoThorough", StatsModes="StatsAll", Codecs="CodecsSome", WriteOpts="OptDefault")
 
@@ -109,7 +109,7 @@ def replay_chunk(args):
                 widx = None                       # recorded as (start, stop, step) in the pandas metadata
             path = os.path.join(d, "c%d.parquet" % ci)
             has_nulls = {"true": True, "false": False, "infer": "infer"}[case["mode"]]
-            stats = {"true": True, "false": False, "auto": "auto"}[case["stats"]]
+            stats = {"true": True, "false": False, "auto": "auto", "list": ["x"], "listother": None}[case["stats"]]
             old_page, old_v = W.MAX_PAGE_SIZE, W.DATAPAGE_VERSION
             raised = None
             try:
@@ -124,6 +124,8 @@ def replay_chunk(args):
                     okw["fixed_text"] = {"x": 8}          # no value of the text / bytes classes is longer than 8 bytes
                 elif case.get("opt") == "explicit":
                     okw["object_encoding"] = {"x": "bytes" if cls == "obj_bytes" else "utf8", zname: "infer"}
+                if stats is None:
+                    stats = [zname]                  # statistics asked for the neighbouring column only
                 fp.write(path, df, has_nulls=has_nulls, row_group_offsets=(case["rgo"] or None), stats=stats,
                          write_index=widx, compression=(None if case.get("codec", "none") == "none" else case["codec"]),
                          **okw)
